@@ -41,35 +41,39 @@ def run_model(case):
     from aldy.cn import solve_cn_model
     from aldy.gene import CNConfigType
 
+    # `gene` is the object handed to aldy; `pristine` is loaded separately, never handed to aldy, and is what the reference
+    # model reads the catalogue from (a call that damages the catalogue must not take the oracle with it)
     if case["gene"] == "gen":
         gene = gen_sol.generated(case["db"], case["build"], "c03")
+        pristine = gen_sol.generated(case["db"], case["build"], "c03p")
     else:
         gene = gen_sol.shipped(case["gene"], case["build"])
-    if len(gene.cn_configs) < 2:
+        pristine = gen_sol.shipped(case["gene"], case["build"], tag="pristine")
+    if len(pristine.cn_configs) < 2:
         return Result([], ["no-structural-allele"], False)
     prof = Profile("t")
     prof.gap = case["gap"]
     max_cn = case["max_cn"]
-    names = list(gene.cn_configs)
-    dele = gene.deletion_allele()
-    has_p = len(gene.regions) > 1
+    names = list(pristine.cn_configs)
+    dele = pristine.deletion_allele()
+    has_p = len(pristine.regions) > 1
     # planted structure -> exact depths -> noise
     pl = [names[i % len(names)] for i in case["planted"]]
     cov = {}
     noise = case["noise"]
-    for k, r in enumerate(gene.unique_regions):
+    for k, r in enumerate(pristine.unique_regions):
         g = 0
         p = 0
         for ci, c in enumerate(pl):
-            cn = gene.cn_configs[c].cn
+            cn = pristine.cn_configs[c].cn
             g += cn[0].get(r, 0)
             if has_p:
-                p += cn[1].get(r, 0) - (1 if ci >= 2 and gene.cn_configs[c].kind == CNConfigType.DEFAULT else 0)
+                p += cn[1].get(r, 0) - (1 if ci >= 2 and pristine.cn_configs[c].kind == CNConfigType.DEFAULT else 0)
         ng, np_ = noise[(2 * k) % len(noise)], noise[(2 * k + 1) % len(noise)]
         cov[r] = (max(0.0, round(g + ng / 100.0, 2)), max(0.0, round(p + np_ / 100.0, 2)) if has_p else 0.0)
     fs = None
     if case["fusion_support"] is not None:
-        fus = [n for n in names if gene.cn_configs[n].kind in (CNConfigType.LEFT_FUSION, CNConfigType.RIGHT_FUSION)]
+        fus = [n for n in names if pristine.cn_configs[n].kind in (CNConfigType.LEFT_FUSION, CNConfigType.RIGHT_FUSION)]
         cut = 1 / (2 * max_cn)
         fs = {}
         for i, n in enumerate(fus):
@@ -78,75 +82,84 @@ def run_model(case):
                 fs[n] = round(cut + v / 1000.0 - 0.005, 4) if v < 10 else v / 100.0
         if not fs:
             fs = None
-    sols = solve_cn_model(gene, prof, gene.cn_configs, max_cn, cov, "cbc", None, fs)
-    best, allx, rnames = refmodels.rcn(gene, prof, max_cn, cov, fs)
-    default = [n for n in rnames if gene.cn_configs[n].kind == CNConfigType.DEFAULT]
-    labels = [f"gene:{case['gene']}", f"gap:{case['gap']}", f"max_cn:{max_cn}", f"planted:{len(pl)}", "fusion-support" if fs else "no-fusion-support"]
-    viol = []
-    if not best:
-        if sols:
-            viol.append(V("solutions-but-no-admissible-structure", n=len(sols)))
-        return Result(viol, labels + ["infeasible"], False)
-    opt = min(v[0] for v in best.values())
-    if not sols:
-        viol.append(V("no-structure-reported", opt=opt))
-        return Result(viol, labels, True)
-    rep = {}
-    for s in sols:
-        k = tuple(sorted(s.solution.elements()))
-        if k in rep:
-            viol.append(V("structure-reported-twice", structure=k))
-        rep[k] = s.score
-        # region_cn = sum of configuration vectors
-        want = [collections.Counter() for _ in gene.cn_configs["1"].cn]
-        for c in k:
-            for gi, gd in enumerate(gene.cn_configs[c].cn):
-                for r, v in gd.items():
-                    want[gi][r] += v
-        got = [collections.Counter({r: v for r, v in d.items() if v}) for d in s.region_cn]
-        if got != [collections.Counter({r: v for r, v in d.items() if v}) for d in want]:
-            viol.append(V("region_cn-not-sum-of-vectors", structure=k))
-    rbest = min(rep.values())
-    if abs(rbest - opt) > 1e-4:
-        viol.append(V("best-reported-not-optimal", reported=rbest, optimum=opt, argmin=[k for k, v in best.items() if v[0] <= opt + 1e-6][:2]))
-    nshadow = 0
-    for k, sc in rep.items():
-        if k not in best:
-            viol.append(V("ill-formed-structure", structure=k, kinds=sorted({str(gene.cn_configs[c].kind)[13:] for c in k})))
-            continue
-        if sc > (1 + prof.gap) * rbest + 1e-4:
-            viol.append(V("reported-outside-gap", structure=k, score=sc, best=rbest, gap=prof.gap))
-        exps = allx[k]
-        if not any(abs(sc - e[0]) <= 1e-4 for e in exps):
-            viol.append(V("score-is-no-explanation-of-structure", structure=k, score=sc, reference=best[k][0]))
-            continue
-        if sc > best[k][0] + 1e-4:
-            nshadow += 1
-            for e_sc, e in exps:
-                if e_sc >= sc - 1e-4:
-                    continue
-                ok = False
-                for k2, sc2 in rep.items():
-                    if k2 == k:
+    def judge(sols, fs):
+        best, allx, rnames = refmodels.rcn(pristine, prof, max_cn, cov, fs)
+        default = [n for n in rnames if pristine.cn_configs[n].kind == CNConfigType.DEFAULT]
+        labels = [f"gene:{case['gene']}", f"gap:{case['gap']}", f"max_cn:{max_cn}", f"planted:{len(pl)}", "fusion-support" if fs else "no-fusion-support"]
+        viol = []
+        if not best:
+            if sols:
+                viol.append(V("solutions-but-no-admissible-structure", n=len(sols)))
+            return Result(viol, labels + ["infeasible"], False)
+        opt = min(v[0] for v in best.values())
+        if not sols:
+            viol.append(V("no-structure-reported", opt=opt))
+            return Result(viol, labels, True)
+        rep = {}
+        for s in sols:
+            k = tuple(sorted(s.solution.elements()))
+            if k in rep:
+                viol.append(V("structure-reported-twice", structure=k))
+            rep[k] = s.score
+            # region_cn = sum of configuration vectors
+            want = [collections.Counter() for _ in pristine.cn_configs["1"].cn]
+            for c in k:
+                for gi, gd in enumerate(pristine.cn_configs[c].cn):
+                    for r, v in gd.items():
+                        want[gi][r] += v
+            got = [collections.Counter({r: v for r, v in d.items() if v}) for d in s.region_cn]
+            if got != [collections.Counter({r: v for r, v in d.items() if v}) for d in want]:
+                viol.append(V("region_cn-not-sum-of-vectors", structure=k))
+        rbest = min(rep.values())
+        if abs(rbest - opt) > 1e-4:
+            viol.append(V("best-reported-not-optimal", reported=rbest, optimum=opt, argmin=[k for k, v in best.items() if v[0] <= opt + 1e-6][:2]))
+        nshadow = 0
+        for k, sc in rep.items():
+            if k not in best:
+                viol.append(V("ill-formed-structure", structure=k, kinds=sorted({str(pristine.cn_configs[c].kind)[13:] for c in k})))
+                continue
+            if sc > (1 + prof.gap) * rbest + 1e-4:
+                viol.append(V("reported-outside-gap", structure=k, score=sc, best=rbest, gap=prof.gap))
+            exps = allx[k]
+            if not any(abs(sc - e[0]) <= 1e-4 for e in exps):
+                viol.append(V("score-is-no-explanation-of-structure", structure=k, score=sc, reference=best[k][0]))
+                continue
+            if sc > best[k][0] + 1e-4:
+                nshadow += 1
+                for e_sc, e in exps:
+                    if e_sc >= sc - 1e-4:
                         continue
-                    for e2_sc, e2 in allx.get(k2, []):
-                        if e2[0] == e[0] and e2[1] <= e[1] and e2[2] <= e[2] and e2_sc <= e_sc + 1e-4 and sc2 <= e_sc + 1e-4:
-                            ok = True
-                if not ok:
-                    viol.append(V("score-above-reference-without-shadowing", structure=k, score=sc, reference=best[k][0], cheaper=e))
+                    ok = False
+                    for k2, sc2 in rep.items():
+                        if k2 == k:
+                            continue
+                        for e2_sc, e2 in allx.get(k2, []):
+                            if e2[0] == e[0] and e2[1] <= e[1] and e2[2] <= e[2] and e2_sc <= e_sc + 1e-4 and sc2 <= e_sc + 1e-4:
+                                ok = True
+                    if not ok:
+                        viol.append(V("score-above-reference-without-shadowing", structure=k, score=sc, reference=best[k][0], cheaper=e))
+                        break
+        if nshadow:
+            labels.append("shadowed")
+        # completeness
+        for k, (sc, e) in best.items():
+            if sc < (1 + prof.gap) * opt - 2e-4 and k not in rep:
+                ck = collections.Counter(k)
+                if not any(not (collections.Counter(r) - ck) and rv <= sc + 1e-4 for r, rv in rep.items()):
+                    viol.append(V("within-gap-structure-missing", structure=k, score=sc, opt=opt, gap=prof.gap, reported=len(rep)))
                     break
-    if nshadow:
-        labels.append("shadowed")
-    # completeness
-    for k, (sc, e) in best.items():
-        if sc < (1 + prof.gap) * opt - 2e-4 and k not in rep:
-            ck = collections.Counter(k)
-            if not any(not (collections.Counter(r) - ck) and rv <= sc + 1e-4 for r, rv in rep.items()):
-                viol.append(V("within-gap-structure-missing", structure=k, score=sc, opt=opt, gap=prof.gap, reported=len(rep)))
-                break
-    close = sum(1 for v in best.values() if v[0] <= 2 * opt + 1e-9)
-    labels.append(f"reported:{min(len(rep), 4)}")
-    return Result(viol, labels, close >= 3)
+        close = sum(1 for v in best.values() if v[0] <= 2 * opt + 1e-9)
+        labels.append(f"reported:{min(len(rep), 4)}")
+        return Result(viol, labels, close >= 3)
+
+    res = judge(solve_cn_model(gene, prof, gene.cn_configs, max_cn, cov, "cbc", None, fs), fs)
+    if fs is not None:
+        # history: the same Gene object is asked again without long-read support; the admissible set is the catalogue's
+        # (read from the separately loaded object), whatever the earlier call filtered for itself
+        r2 = judge(solve_cn_model(gene, prof, gene.cn_configs, max_cn, cov, "cbc", None, None), None)
+        res.violations += [V("second-call:" + v["bucket"], **v["detail"]) for v in r2.violations]
+        res.labels.append("second-call")
+    return res
 
 
 def run_route(case):
